@@ -289,6 +289,11 @@ def check_dispatcher(ctx):
             b = calls[0].data['bound']
             tp = ctx.prog.func(target).params()
             ok = same(b.get(tp[0]), x) and same(b.get(tp[1]), lk) and (not fwd or veq(b.get(tp[2]), fill))
+        if not ok and calls:
+            from .common import foreign_heads
+            fh_ = foreign_heads(res, calls[0].data['term'])
+            if fh_ and any(c.data['callee'].qualname == target for c in calls):
+                ok = None       # another construction next to (or around) the documented call: not decided here
         ctx.check(ok, 'C10.1', f"'{lit}' -> {target.rsplit('.', 1)[1]}(x, lookup{', fill_not_valid' if fwd else ''})",
                   f"{[(c.data['callee'].name, {k: show(v, 40) for k, v in c.data['bound'].items()}) for c in calls]}", fi.loc(), fi.qualname, f"dispatch:{lit}")
     # defaults
